@@ -128,11 +128,12 @@ def random_behaviours(c, rng, count, depth, max_loggers):
                 a, b = rng.choice(sorted(c["setter_args"][k]))
                 beh.append(dict(op="With", l=l, k=k, a=a, b=b))
                 n += 1          # upper bound (WithSkip may return an existing child)
-            elif op == "New":
-                beh.append(dict(op="New", l=l, k=rng.choice(names), a=rng.randint(1, len(c["opt_lists"])), b=0))
-                n += 1
-            elif op == "NewDetached":
-                beh.append(dict(op="NewDetached", l=0, k=rng.choice(names), a=rng.randint(1, len(c["opt_lists"])), b=0))
+            elif op in ("New", "NewDetached"):
+                nm, oi = rng.choice(names), rng.randint(1, len(c["opt_lists"]))
+                if nm == "" and any(o["k"] == "KV" for o in c["opt_lists"][oi - 1]):
+                    # bare key, value arguments need a name in front (the first string argument IS the name)
+                    nm = (list(c["names"]) or ["a"])[0]
+                beh.append(dict(op=op, l=l if op == "New" else 0, k=nm, a=oi, b=0))
                 n += 1
             elif op == "PkgSetLevel":
                 a, b = rng.choice(sorted(c["setter_args"]["Level"]))
